@@ -67,6 +67,10 @@ func (h *tracerHandler) checkOpenAt(ctx *ptracer.Context, dirfd int, addr uint, 
 
 func (h *tracerHandler) checkOpenAt2(ctx *ptracer.Context, dirfd int, addr uint, howAddr uint) ptracer.TraceAction {
 	fn := h.getStringAt(ctx, dirfd, addr)
+	if resolve, err := readOpenHowResolve(ctx.Pid, uintptr(howAddr)); err == nil && resolve&resolveInRoot != 0 {
+		// RESOLVE_IN_ROOT: the kernel treats dirfd as the root directory of this lookup
+		fn = absPathInRoot(ctx.Pid, dirfd, ctx.GetString(uintptr(addr)))
+	}
 	if blocked, action := h.checkProcPath(ctx.Pid, fn); blocked {
 		h.Debug("openat2 proc policy: ", fn, "dirfd:", dirfd)
 		return action
@@ -302,6 +306,18 @@ func readOpenHowFlags(pid int, howAddr uintptr) (uint64, error) {
 	return binary.NativeEndian.Uint64(buf[:]), nil
 }
 
+// resolveInRoot is RESOLVE_IN_ROOT of open_how.resolve
+const resolveInRoot = 0x10
+
+// readOpenHowResolve reads open_how.resolve (the third 64-bit word of struct open_how)
+func readOpenHowResolve(pid int, howAddr uintptr) (uint64, error) {
+	var buf [8]byte
+	if _, err := syscall.PtracePeekData(pid, howAddr+16, buf[:]); err != nil {
+		return 0, err
+	}
+	return binary.NativeEndian.Uint64(buf[:]), nil
+}
+
 // getProcCwd gets the process CWD
 func getProcCwd(pid int) string {
 	fileName := "/proc/self/cwd"
@@ -346,6 +362,19 @@ func absPathAt(pid int, dirfd int, p string) string {
 		return ""
 	}
 	return resolveTraceePath(pid, base, p)
+}
+
+// absPathInRoot calculates the path for a lookup that treats dirfd as its root directory:
+// absolute paths, absolute symlink targets and ".." all stay beneath it
+func absPathInRoot(pid int, dirfd int, p string) string {
+	root := getProcCwd(pid)
+	if dirfd != atFDCWD {
+		root = getProcFd(pid, dirfd)
+	}
+	if root == "" {
+		return ""
+	}
+	return resolveTraceePathIn(pid, root, root, p)
 }
 
 func normalizeProcMagicPath(pid int, p string) string {
@@ -422,7 +451,12 @@ func isDangerousProcPath(path string) bool {
 }
 
 func resolveTraceePath(pid int, base string, p string) string {
-	if !filepath.IsAbs(p) {
+	return resolveTraceePathIn(pid, "/", base, p)
+}
+
+// resolveTraceePathIn resolves p with root (canonical, "/" for an ordinary lookup) as the root directory
+func resolveTraceePathIn(pid int, root string, base string, p string) string {
+	if root == "/" && !filepath.IsAbs(p) {
 		if base == "" {
 			base = getProcCwd(pid)
 		}
@@ -432,7 +466,8 @@ func resolveTraceePath(pid int, base string, p string) string {
 
 	// walk component by component like the kernel does; cur is always free of symlinks
 	traceeProc := "/proc/" + strconv.Itoa(pid)
-	cur := "/"
+	// (a lookup confined to another root starts there for absolute and relative names alike)
+	cur := root
 	rest := strings.Split(p, "/")
 	links := 0
 	for len(rest) > 0 {
@@ -442,7 +477,9 @@ func resolveTraceePath(pid int, base string, p string) string {
 			continue
 		}
 		if part == ".." {
-			cur = filepath.Dir(cur)
+			if cur != root {
+				cur = filepath.Dir(cur)
+			}
 			continue
 		}
 
@@ -473,7 +510,7 @@ func resolveTraceePath(pid int, base string, p string) string {
 			return filepath.Join(append([]string{candidate}, rest...)...)
 		}
 		if filepath.IsAbs(target) {
-			cur = "/"
+			cur = root
 		}
 		rest = append(strings.Split(target, "/"), rest...)
 	}
